@@ -139,6 +139,71 @@ def zp(x):
 # ---------------------------------------------------------------------------------------------------------------
 # parser
 
+P_FIELD = 2**64 - 2**32 + 1
+
+
+def eval_const_expr(expr, consts):
+    """value of a Miden assembly constant expression (+ - * / // and parentheses over decimal numbers and earlier constants),
+    in the field, with the usual precedence and left associativity"""
+    toks = re.findall(r"//|[-+*/()]|0x[0-9a-fA-F]+|\d+|[A-Za-z_]\w*", expr)
+    if "".join(toks) != expr:
+        raise ValueError("cannot tokenise %r" % expr)
+    pos = [0]
+
+    def atom():
+        t = toks[pos[0]]
+        pos[0] += 1
+        if t == "(":
+            v = parse(1)
+            pos[0] += 1
+            return v
+        if t[0].isdigit():
+            return int(t, 0) % P_FIELD
+        return consts[t]
+
+    def parse(minp):
+        lhs = atom()
+        while pos[0] < len(toks) and toks[pos[0]] in ("+", "-", "*", "/", "//"):
+            o = toks[pos[0]]
+            pr = 1 if o in "+-" else 2
+            if pr < minp:
+                break
+            pos[0] += 1
+            rhs = parse(pr + 1)
+            if o == "+":
+                lhs = (lhs + rhs) % P_FIELD
+            elif o == "-":
+                lhs = (lhs - rhs) % P_FIELD
+            elif o == "*":
+                lhs = (lhs * rhs) % P_FIELD
+            elif o == "//":
+                lhs = lhs // rhs
+            else:
+                lhs = lhs * pow(rhs, P_FIELD - 2, P_FIELD) % P_FIELD
+        return lhs
+    return parse(1)
+
+
+def expand(module, body, inline=True):
+    """the same block with `repeat.n` written out as n copies and `exec.<local procedure without locals>` replaced by the
+    procedure's body (both are exact by the language definition); nested blocks are expanded by the recursive calls"""
+    out = []
+    for node in body:
+        if node[0] == "repeat":
+            for _ in range(node[1]):
+                out += expand(module, node[2], inline)
+        elif node[0] == "if":
+            out.append(("if", expand(module, node[1], inline), expand(module, node[2], inline), node[3]))
+        elif node[0] == "while":
+            out.append(("while", expand(module, node[1], inline), node[2]))
+        elif inline and node[0] == "ins" and node[1].startswith("exec.") and "::" not in node[1] and \
+                node[1][5:] in module.procs and module.procs[node[1][5:]].nlocals == 0 and not module.procs[node[1][5:]].exported:
+            out += expand(module, module.procs[node[1][5:]].body, inline)
+        else:
+            out.append(node)
+    return out
+
+
 class Proc:
     def __init__(self, name, exported, nlocals, body, doc, line):
         self.name, self.exported, self.nlocals, self.body, self.doc, self.line = name, exported, nlocals, body, doc, line
@@ -150,6 +215,7 @@ class Module:
         self.procs = {}
         self.order = []
         self.imports = {}
+        self.consts = {}
         self.parse(open(path).read())
 
     def parse(self, text):
@@ -167,6 +233,15 @@ class Module:
                     pass
                 continue
             for t in s.split():
+                if t.startswith("const.") and "=" in t:
+                    name, expr = t[6:].split("=", 1)
+                    try:
+                        self.consts[name] = eval_const_expr(expr, self.consts)
+                    except Exception as e:
+                        raise MasmError("%s:%d: constant %s: %s" % (self.path, ln, name, e))
+                elif self.consts and "." in t and not t.startswith(("use.", "export.", "proc.", "exec.", "call.", "syscall.", "procref.")):
+                    parts = t.split(".")
+                    t = ".".join([parts[0]] + [str(self.consts[x]) if x in self.consts else x for x in parts[1:]])
                 if re.match(r"^(proc|export)\.", t) and pending:
                     docs[len(toks)] = pending
                 if re.match(r"^(proc|export)\.", t):
